@@ -196,7 +196,7 @@ func (s *TFIDFSearcher) Search(query string, limit int) []TFIDFResult {
 	})
 
 	// Apply limit
-	if len(results) > limit {
+	if limit >= 0 && len(results) > limit {
 		results = results[:limit]
 	}
 
